@@ -76,8 +76,8 @@ def check(cx):
         for t in TAGS:
             if t not in seen:
                 res.append(Finding(ID, 'F1', 'table:' + t, False, 'merge_all observer not found (fail closed)'))
-        if n_sites < 6:
-            res.append(Finding(ID, 'F1', 'floor', False, 'only %d subscribe/queued-task sites found in merge_all, expected >= 6' % n_sites))
+        if n_sites < 2:
+            res.append(Finding(ID, 'F1', 'floor', False, 'only %d subscribe/queued-task sites found in merge_all, expected >= 2 (one per cell kind)' % n_sites))
     return res
 
 
